@@ -94,12 +94,17 @@ func twinMain(w *World, args []string) {
 				if c == "ok" {
 					continue
 				}
-				// the signer must have no later tx in the block (removing the tx would shift its sequences)
+				// a tx rejected by the ante chain does not bump its signer's sequence, so the signer's later txs of
+				// the block fail with "wrong sequence" (sdk:32) — and would succeed in the twin: not comparable.
+				// Every other failing tx is a candidate, including ones followed by txs of the same signer.
 				later := false
-				for _, t2 := range h.Blocks[bi].Txs[ti+1:] {
-					if t2.Signer == h.Blocks[bi].Txs[ti].Signer {
+				for k, t2 := range h.Blocks[bi].Txs[ti+1:] {
+					if t2.Signer == h.Blocks[bi].Txs[ti].Signer && ti+1+k < len(rec.Classes) && rec.Classes[ti+1+k] == "sdk:32" {
 						later = true
 					}
+				}
+				if c == "sdk:32" {
+					later = true
 				}
 				if !later {
 					cands = append(cands, cand{bi, ti})
